@@ -12,5 +12,6 @@ git apply -R /tmp/seed-$id/.cur.diff
 wo=$(go test -vet=off -count=1 -run 'Seed' $pkg 2>&1 | grep -E "^(ok|FAIL|---)" | head -3 | tr '\n' ' ')
 git apply /tmp/seed-$id/.cur.diff
 echo "demo WITH: $w"; echo "demo WITHOUT: $wo"
+git checkout -q --detach main 2>&1 | head -3   # bring the scratch tree to the current /repo head, keeping the seeded change
 cd /verif
 for c in $checks; do VERIF_REPO=/tmp/wt-$id ./check $c quick 2>&1 | grep -v KNOWN | cut -c1-330 | head -5; done
